@@ -156,6 +156,10 @@ def extract(verbose=False):
     out = os.path.join(cache_root, h)
     done = os.path.join(out, "DONE")
     if os.path.exists(done):
+        try:
+            os.utime(out, None)          # least-recently-used eviction below
+        except OSError:
+            pass
         return out, json.load(open(os.path.join(out, "units.json"))), time.time() - t0
     tmp = out + ".tmp%d" % os.getpid()
     shutil.rmtree(tmp, ignore_errors=True)
@@ -180,12 +184,18 @@ def extract(verbose=False):
         os.rename(tmp, out)
     except OSError:
         shutil.rmtree(tmp, ignore_errors=True)
-    # keep the cache small: newest 4 trees only
+    # keep the cache small: the 12 most recently used trees, and never one used within the last hour
+    # (several checks may run concurrently on different scratch copies: positive controls, tools/try_seed.sh)
     try:
+        now = time.time()
         ds = sorted((d for d in os.listdir(cache_root) if ".tmp" not in d),
                     key=lambda d: os.path.getmtime(os.path.join(cache_root, d)))
-        for d in ds[:-4]:
-            shutil.rmtree(os.path.join(cache_root, d), ignore_errors=True)
+        for d in ds[:-12]:
+            if now - os.path.getmtime(os.path.join(cache_root, d)) > 3600:
+                shutil.rmtree(os.path.join(cache_root, d), ignore_errors=True)
+        for d in os.listdir(cache_root):
+            if ".tmp" in d and now - os.path.getmtime(os.path.join(cache_root, d)) > 3600:
+                shutil.rmtree(os.path.join(cache_root, d), ignore_errors=True)
     except OSError:
         pass
     return out, units, time.time() - t0
